@@ -5,7 +5,8 @@ From Pika Require Import Base.Conc Base.Agent Gen.GenOnce Model.Event Model.Once
 Import ListNotations.
 
 Definition runner_pc (o : option opcT) : bool :=
-  match o with Some OR1 | Some OBody | Some (OStore _) => true | _ => false end.
+  match o with Some OR1 | Some OBody | Some (OStore _) | Some (OSet false _) => true | _ => false end.
+Definition body_pc (o : option opcT) : bool := match o with Some OBody => true | _ => false end.
 
 Lemma consts_distinct :
   N.eqb once_running once_complete = false /\ N.eqb once_running once_cas_expected = false /\
@@ -38,30 +39,33 @@ Proof.
   - right. eexists. split; reflexivity.
 Qed.
 
-(* steps that change neither status, orun nor the log, and keep the thread out of / inside the
-   same class of program counters *)
+(* steps that change neither status, orun nor the log, and keep the thread inside the same class
+   of program counters *)
 Lemma OInv_local g g' ls t l' : OInv g ls ->
   status g' = status g -> orun g' = orun g -> olog g' = olog g ->
-  runner_pc (opc (ls t)) = false -> runner_pc (opc l') = false ->
-  (opc l' = Some (OStore true) -> False) ->
+  runner_pc (opc l') = runner_pc (opc (ls t)) -> body_pc (opc l') = body_pc (opc (ls t)) ->
+  (opc l' = Some (OStore true) <-> opc (ls t) = Some (OStore true)) ->
   (forall sub, opc l' = Some (OSet true sub) -> exists sub0, opc (ls t) = Some (OSet true sub0)) ->
   OInv g' (upd ls t l').
 Proof.
-  intros I Hs Ho Hl Hr Hr' Hst Hset. destruct I as [A B C D E F K1 K2 K3 K4 K5 L1 L2].
-  assert (Hnr : forall t0, orun g = Some t0 -> t0 <> t).
-  { intros t0 H0 ->. specialize (A _ H0). congruence. }
+  intros I Hs Ho Hl Hr Hb Hst Hset. destruct I as [A B C D E F K1 K2 K3 K4 K5 L1 L2].
   split; rewrite ?Hs, ?Ho, ?Hl; auto.
-  - intros t0 H0. rewrite upd_other by (apply Hnr; exact H0). apply A. exact H0.
-  - intros t0 H0. destruct (Nat.eq_dec t0 t) as [->|Hne]; [rewrite upd_same in H0; congruence|].
+  - intros t0 H0. destruct (Nat.eq_dec t0 t) as [->|Hne]; [rewrite upd_same, Hr; apply A; exact H0|].
+    rewrite upd_other by exact Hne. apply A. exact H0.
+  - intros t0 H0. destruct (Nat.eq_dec t0 t) as [->|Hne]; [rewrite upd_same, Hr in H0; apply B; exact H0|].
     rewrite upd_other in H0 by exact Hne. apply B. exact H0.
-  - destruct (orun g) as [t0|] eqn:Hor; [|exact F]. rewrite upd_other by (apply Hnr; reflexivity). exact F.
-  - intros t0 H0. destruct (Nat.eq_dec t0 t) as [->|Hne]; [rewrite upd_same in H0; destruct (Hst H0)|].
+  - destruct (orun g) as [t0|] eqn:Hor; [|exact F].
+    destruct (Nat.eq_dec t0 t) as [->|Hne]; [|rewrite upd_other by exact Hne; exact F].
+    rewrite upd_same. unfold body_pc in Hb.
+    destruct (opc l') as [[]|]; destruct (opc (ls t)) as [[]|]; try discriminate; exact F.
+  - intros t0 H0. destruct (Nat.eq_dec t0 t) as [->|Hne]; [rewrite upd_same in H0; apply (K2 t); apply Hst; exact H0|].
     rewrite upd_other in H0 by exact Hne. eapply K2; exact H0.
   - intros t0 sub H0. destruct (Nat.eq_dec t0 t) as [->|Hne].
     + rewrite upd_same in H0. destruct (Hset _ H0) as [sub0 H1]. eapply K3; exact H1.
     + rewrite upd_other in H0 by exact Hne. eapply K3; exact H0.
   - intros H0. destruct (K4 H0) as [H1|[t0 [H1 H2]]]; [left; exact H1|right].
-    exists t0. split; [exact H1|]. rewrite upd_other by (apply Hnr; exact H1). exact H2.
+    exists t0. split; [exact H1|]. destruct (Nat.eq_dec t0 t) as [->|Hne]; [rewrite upd_same; apply Hst; exact H2|].
+    rewrite upd_other by exact Hne. exact H2.
 Qed.
 
 Lemma OInv_same g e' ls t : OInv g ls ->
@@ -113,8 +117,8 @@ Proof.
     + apply N.eqb_eq in Hc. pose proof (k1 _ _ I Hc) as Hk.
       change {| status := status g; oev := oev g; orun := orun g; olog := ORet t :: olog g |} with (add_log g (ORet t)).
       apply (OInv_local (add_log g (ORet t)) _ ls t _); [apply OInv_log_ret; assumption| | | | | | |];
-        cbn; auto; try (rewrite Hpc; reflexivity); try discriminate.
-    + apply (OInv_local g _ ls t _ I); cbn; auto; try (rewrite Hpc; reflexivity); try discriminate.
+        cbn; auto; try (rewrite Hpc; reflexivity); try (rewrite Hpc; split; discriminate); try discriminate.
+    + apply (OInv_local g _ ls t _ I); cbn; auto; try (rewrite Hpc; reflexivity); try (rewrite Hpc; split; discriminate); try discriminate.
   - (* C1 *)
     destruct (N.eqb (status g) once_cas_expected) eqn:Hz; cbn [fst snd].
     + (* CAS success *)
@@ -146,8 +150,8 @@ Proof.
       * apply N.eqb_eq in Hc. pose proof (k1 _ _ I Hc) as Hk.
         change {| status := status g; oev := oev g; orun := orun g; olog := ORet t :: olog g |} with (add_log g (ORet t)).
         apply (OInv_local (add_log g (ORet t)) _ ls t _); [apply OInv_log_ret; assumption| | | | | | |];
-          cbn; auto; try (rewrite Hpc; reflexivity); try discriminate.
-      * apply (OInv_local g _ ls t _ I); cbn; auto; try (rewrite Hpc; reflexivity); try discriminate.
+          cbn; auto; try (rewrite Hpc; reflexivity); try (rewrite Hpc; split; discriminate); try discriminate.
+      * apply (OInv_local g _ ls t _ I); cbn; auto; try (rewrite Hpc; reflexivity); try (rewrite Hpc; split; discriminate); try discriminate.
   - (* R1: event_.reset(), the body begins *)
     assert (Hor : orun g = Some t) by (apply (r1b _ _ I); rewrite Hpc; reflexivity).
     assert (Hst : status g = once_running) by (apply (r2b _ _ I); congruence).
@@ -185,18 +189,18 @@ Proof.
       rewrite Hor in H1. inversion H1; subst. congruence. }
     pose proof (c1 _ _ I) as Hc1. rewrite Hor, Hpc in Hc1.
     destruct I as [A B C D E F K1 K2 K3 K4 K5 L1 L2]. cbn [fst snd]. split; cbn [status orun olog oev].
-    + intros t0 H0. rewrite Hor in H0. inversion H0; subst. rewrite upd_same. reflexivity.
+    + intros t0 H0. rewrite Hor in H0. inversion H0; subst. rewrite upd_same. destruct throws; reflexivity.
     + intros t0 H0. destruct (Nat.eq_dec t0 t) as [->|Hne]; [exact Hor|].
       rewrite upd_other in H0 by exact Hne. apply B. exact H0.
     + exact C.
     + exact D.
     + exact E.
-    + rewrite Hor. cbv beta iota. rewrite upd_same. unfold nbegin, nend in *. cbn [filter length o_at opc]. lia.
+    + rewrite Hor. cbv beta iota. rewrite upd_same. unfold nbegin, nend in *. destruct throws; cbn [filter length o_at opc]; lia.
     + intros H. congruence.
     + intros t0 H0. unfold nok in *. destruct (Nat.eq_dec t0 t) as [->|Hne].
-      * rewrite upd_same in H0. cbn in H0. inversion H0 as [H1]. rewrite H1. cbn [filter length]. lia.
+      * rewrite upd_same in H0. cbn in H0. destruct throws; [discriminate|]. cbn [negb filter length]. lia.
       * rewrite upd_other in H0 by exact Hne. specialize (K2 _ H0). lia.
-    + intros t0 sub H0. destruct (Nat.eq_dec t0 t) as [->|Hne]; [rewrite upd_same in H0; discriminate|].
+    + intros t0 sub H0. destruct (Nat.eq_dec t0 t) as [->|Hne]; [rewrite upd_same in H0; destruct throws; discriminate|].
       rewrite upd_other in H0 by exact Hne. specialize (K3 _ _ H0). lia.
     + intros H. right. exists t. rewrite upd_same. split; [exact Hor|]. unfold nok in *.
       destruct throws; cbn in *; [lia|reflexivity].
@@ -214,46 +218,54 @@ Proof.
       destruct (Nat.eq_dec (nok (olog g)) 0) as [|Hn]; [assumption|].
       destruct (k4 _ _ I) as [H1|[t0 [H1 H2]]]; [lia|congruence|].
       rewrite Hor in H1. inversion H1; subst. congruence. }
-    destruct I as [A B C D E F K1 K2 K3 K4 K5 L1 L2]. cbn [fst snd]. split; cbn [status orun olog oev].
-    + discriminate.
-    + intros t0 H0. exfalso. destruct (Nat.eq_dec t0 t) as [->|Hne]; [rewrite upd_same in H0; discriminate|].
-      rewrite upd_other in H0 by exact Hne. specialize (B _ H0). congruence.
-    + intros H. exfalso. destruct ok; congruence.
-    + intros H. congruence.
-    + destruct ok; [right; left; reflexivity|right; right; exact D6].
-    + lia.
-    + intros H. destruct ok; [exact Hk|congruence].
-    + intros t0 H0. exfalso. destruct (Nat.eq_dec t0 t) as [->|Hne]; [rewrite upd_same in H0; discriminate|].
-      rewrite upd_other in H0 by exact Hne.
-      assert (orun g = Some t0) by (apply B; rewrite H0; reflexivity). congruence.
-    + intros t0 sub H0. destruct (Nat.eq_dec t0 t) as [->|Hne].
-      * rewrite upd_same in H0. inversion H0; subst. exact Hk.
-      * rewrite upd_other in H0 by exact Hne. eapply K3; exact H0.
-    + intros H. left. destruct ok; [reflexivity|lia].
-    + exact K5.
-    + exact L1.
-    + exact L2.
-  - (* SET: event_.set() steps, then return / rethrow *)
-    assert (Hnr : runner_pc (opc (ls t)) = false) by (rewrite Hpc; reflexivity).
+    assert (Hgen : forall l', runner_pc (opc l') = false -> (opc l' = Some (OStore true) -> False) ->
+              (forall sub, opc l' = Some (OSet true sub) -> ok = true) ->
+              OInv {| status := if ok then once_complete else once_after_throw; oev := oev g; orun := None; olog := olog g |}
+                   (upd ls t l')).
+    { intros l' Hr' Hs' Hset'. destruct I as [A B C D E F K1 K2 K3 K4 K5 L1 L2]. split; cbn [status orun olog oev].
+      + discriminate.
+      + intros t0 H0. exfalso. destruct (Nat.eq_dec t0 t) as [->|Hne]; [rewrite upd_same in H0; congruence|].
+        rewrite upd_other in H0 by exact Hne. specialize (B _ H0). congruence.
+      + intros H. exfalso. destruct ok; congruence.
+      + intros H. congruence.
+      + destruct ok; [right; left; reflexivity|right; right; exact D6].
+      + lia.
+      + intros H. destruct ok; [exact Hk|congruence].
+      + intros t0 H0. exfalso. destruct (Nat.eq_dec t0 t) as [->|Hne]; [rewrite upd_same in H0; auto|].
+        rewrite upd_other in H0 by exact Hne.
+        assert (orun g = Some t0) by (apply B; rewrite H0; reflexivity). congruence.
+      + intros t0 sub H0. destruct (Nat.eq_dec t0 t) as [->|Hne].
+        * rewrite upd_same in H0. rewrite (Hset' _ H0) in Hk. exact Hk.
+        * rewrite upd_other in H0 by exact Hne. eapply K3; exact H0.
+      + intros H. left. destruct ok; [reflexivity|lia].
+      + exact K5.
+      + exact L1.
+      + exact L2. }
+    destruct ok; cbn [fst snd].
+    + apply Hgen; cbn; try discriminate; auto.
+    + change {| status := once_after_throw; oev := oev g; orun := None; olog := OThrown t :: olog g |}
+        with (add_log {| status := once_after_throw; oev := oev g; orun := None; olog := olog g |} (OThrown t)).
+      apply OInv_log_thrown. apply (Hgen (o_done (ls t))); cbn; try discriminate; auto.
+  - (* SET: event_.set() steps; success: then return; throw: then the status store *)
     destruct (ev_step t (oev g) sub) as [e' sub'] eqn:Hev.
     assert (Hgen : forall pc', pc' <> EDone ->
        OInv {| status := status g; oev := e'; orun := orun g; olog := olog g |} (upd ls t (o_at (ls t) (OSet ok pc')))).
-    { intros pc' _. apply (OInv_local g _ ls t _ I); cbn; auto; try discriminate.
-      intros sub1 H1. inversion H1; subst. exists sub. exact Hpc. }
+    { intros pc' _. apply (OInv_local g _ ls t _ I); cbn; auto; try (rewrite Hpc; reflexivity).
+      - rewrite Hpc. split; discriminate.
+      - intros sub1 H1. inversion H1; subst. exists sub. exact Hpc. }
     destruct sub'; try (apply Hgen; discriminate).
-    cbn [fst snd].
-    assert (I' : OInv {| status := status g; oev := e'; orun := orun g; olog := olog g |} (upd ls t (o_done (ls t)))).
-    { apply (OInv_local g _ ls t _ I); cbn; auto; try discriminate. }
-    destruct ok.
-    + apply (OInv_log_ret _ _ t) in I'; [exact I'|]. cbn. apply (k3 _ _ I t sub Hpc).
-    + apply (OInv_log_thrown _ _ t) in I'. exact I'.
+    destruct ok; cbn [fst snd].
+    + assert (I' : OInv {| status := status g; oev := e'; orun := orun g; olog := olog g |} (upd ls t (o_done (ls t)))).
+      { apply (OInv_local g _ ls t _ I); cbn; auto; try (rewrite Hpc; reflexivity); try (rewrite Hpc; split; discriminate); try discriminate. }
+      apply (OInv_log_ret _ _ t) in I'; [exact I'|]. cbn. apply (k3 _ _ I t sub Hpc).
+    + apply (OInv_local g _ ls t _ I); cbn; auto; try (rewrite Hpc; reflexivity); try (rewrite Hpc; split; discriminate); try discriminate.
   - (* event_.wait() steps *)
     destruct (ev_step t (oev g) sub) as [e' sub'] eqn:Hev.
-    destruct sub'; cbn [fst snd]; apply (OInv_local g _ ls t _ I); cbn; auto; try (rewrite Hpc; reflexivity); try discriminate.
+    destruct sub'; cbn [fst snd]; apply (OInv_local g _ ls t _ I); cbn; auto; try (rewrite Hpc; reflexivity); try (rewrite Hpc; split; discriminate); try discriminate.
   - (* dispatch *)
     destruct (calls (ls t)) as [|k]; cbn [fst snd].
     + destruct g as [st ev orn lg]. apply (OInv_same {| status := st; oev := ev; orun := orn; olog := lg |} ev ls t I).
-    + apply (OInv_local g _ ls t _ I); cbn; auto; try (rewrite Hpc; reflexivity); try discriminate.
+    + apply (OInv_local g _ ls t _ I); cbn; auto; try (rewrite Hpc; reflexivity); try (rewrite Hpc; split; discriminate); try discriminate.
 Qed.
 
 Lemma once_inv sched ncalls : OInv (fst (o_run sched ncalls)) (snd (o_run sched ncalls)).
@@ -290,7 +302,7 @@ Lemma once_retry_after_throw_partial sched ncalls :
   let c := o_run sched ncalls in
   once_after_throw = once_cas_expected /\
   (status (fst c) = once_running ->
-     exists t, orun (fst c) = Some t /\ runner_pc (opc (snd c t)) = true /\ o_enabled (fst c) t (snd c t) = true) /\
+     exists t, orun (fst c) = Some t /\ runner_pc (opc (snd c t)) = true) /\
   (forall t o, opc (snd c t) = Some (OStore false) ->
      status (fst (o_tstep (OONorm o) t (fst c) (snd c t))) = once_cas_expected) /\
   (forall t o, opc (snd c t) = Some OC1 -> status (fst c) = once_cas_expected ->
@@ -299,8 +311,7 @@ Lemma once_retry_after_throw_partial sched ncalls :
 Proof.
   intros c. pose proof (once_inv sched ncalls) as I. fold c in I. split; [reflexivity|split; [|split]].
   - intros H. destruct (orun (fst c)) as [t|] eqn:Hor; [|destruct (r2a _ _ I H Hor)].
-    exists t. pose proof (r1a _ _ I _ Hor) as Hr. repeat split; [exact Hr|].
-    unfold o_enabled. destruct (opc (snd c t)) as [[]|]; try discriminate; reflexivity.
+    exists t. split; [reflexivity|]. apply (r1a _ _ I _ Hor).
   - intros t o H. unfold o_tstep. rewrite H. reflexivity.
   - intros t o H Hs. unfold o_tstep. rewrite H, Hs. cbn. split; reflexivity.
 Qed.
